@@ -133,8 +133,14 @@ func run(id string, info propInfo, tier string, seed uint64, replay string) int 
 	kf := loadFindings()
 	var knownLines []string
 	exclude := []string{}
-	// Probes: fixed findings must pass (regression); known findings print KNOWN-FINDING and exclude their shape.
-	for _, f := range kf.For(id) {
+	// Probes. A fixed finding's probe belongs to the regression tier of its property and must
+	// pass. A known finding's probe is run for every property (its shape would break other
+	// checks too): while it still fails the shape is excluded from generation by construction
+	// and, for the finding's own property, a KNOWN-FINDING line is printed.
+	for _, f := range kf.Findings {
+		if f.Probe == "" || (f.Status != "known" && f.Property != id) {
+			continue
+		}
 		probe := filepath.Join(verifRoot, f.Probe)
 		st, msg := runReplay(testBin, baseEnv, scratch, probe)
 		switch {
@@ -142,7 +148,9 @@ func run(id string, info propInfo, tier string, seed uint64, replay string) int 
 			fmt.Fprintf(os.Stderr, "probe %s inconclusive: %s\n", f.Probe, msg)
 			return 2
 		case f.Status == "known" && st == 1:
-			knownLines = append(knownLines, fmt.Sprintf("KNOWN-FINDING: property=%s %s (%s)", id, f.What, f.ID))
+			if f.Property == id {
+				knownLines = append(knownLines, fmt.Sprintf("KNOWN-FINDING: property=%s %s (%s, probe %s)", id, f.What, f.ID, f.Probe))
+			}
 			if f.Shape != "" {
 				exclude = append(exclude, f.Shape)
 			}
